@@ -81,6 +81,18 @@ def skeleton_statements(maxn):
                     sw = ("switch", DYN["int"], cases, default)
                     for tail in ([], [("expr", ("call", ("member", ("ident", "a"), "act"), [("int", 9)]))]):
                         out.append((("binding_block", [sw] + tail), "switch:%d" % n))
+    # value and void returns mixed around switch exits (the break slot is laid out BEFORE the clause bodies: every break is a backward branch)
+    v = ("return", ("str", "w"))
+    rbodies = [[], [("break", False)], [v], [("return", None)], [("expr", ("call", ("member", ("ident", "a"), "act"), [("int", 1)])), ("break", False)]]
+    rtails = [[], [("return", None)], [v], [("expr", ("call", ("member", ("ident", "a"), "act"), [("int", 9)]))]]
+    for n in range(1, min(maxn, 2) + 1):
+        for bs in itertools.product(range(len(rbodies)), repeat=n):
+            for dpos in [None] + list(range(n + 1)):
+                for db in ([0] if dpos is None else range(len(rbodies))):
+                    cases = [(("int", k + 1), list(rbodies[b])) for k, b in enumerate(bs)]
+                    default = None if dpos is None else (dpos, list(rbodies[db]))
+                    for tail in rtails:
+                        out.append((("binding_block", [("switch", DYN["int"], cases, default)] + tail), "switch-returns:%d" % n))
     arms = [("block", []), ("block", [("expr", ("call", ("member", ("ident", "a"), "act"), [("int", 1)]))]), ("block", [("return", None)]),
             ("block", [("expr", ("int", 1))]), ("block", [("decl", "let", [("z", None, ("int", 1))])])]
     tails = [[], [("decl", "let", [("y", None, ("int", 2))])], [("expr", ("call", ("member", ("ident", "a"), "act"), [("int", 3)]))], [("expr", ("int", 5))], [("return", None)]]
